@@ -98,6 +98,34 @@ def pr_flux(nprs, n, dry, drizzle, unit, shape=0.85, mean_mm=4.0):
     return x
 
 
+THR_GRIDS = [(0.1, 1), (0.1, 1), (0.1, 2), (0.1, 5), (0.05, 1), (0.05, 2), (0.25, 1), (0.25, 2), (1.0, 1)]  # (resolution mm/day, threshold / resolution)
+
+
+def pr_on_threshold(nprs, n, dry, shape, mean_mm, res_mm, unit, kthr, style):
+    """Precipitation whose values sit exactly ON a configured threshold `thr = kthr * (res_mm * unit)` (the boundary of the case
+    split "under the threshold" / "not under the threshold"), next to exact zeros and ordinary amounts:
+      style "gauge"    record at gauge resolution res_mm (0.1 mm data with threshold 0.1: the smallest reportable amount IS the
+                       threshold and occurs many times; with kthr > 1 there are also reportable amounts under the threshold)
+      style "floored"  continuous amounts, drizzle under the threshold floored at the threshold (about half of it; the rest stays as
+                       distinct sub-threshold values)
+    The threshold and the grid values are the SAME float product k * (res_mm * unit), so that equality with the threshold is exact."""
+    step = res_mm * unit
+    thr = kthr * step
+    amounts = nprs.gamma(shape, mean_mm / shape, n)
+    wet = nprs.random(n) >= dry
+    if style == "gauge":
+        x = np.round(amounts / res_mm) * step
+    else:
+        x = amounts * unit
+        under = x < thr
+        x = np.where(under & (nprs.random(n) < 0.5), thr, x)
+    x = np.where(wet, x, 0.0)
+    if (x > thr).sum() < 8:  # enough uncensored values for a fit
+        k = nprs.choice(n, 8, replace=False)
+        x[k] = thr + (1 + np.round(nprs.gamma(shape, mean_mm / shape, 8) / res_mm)) * step
+    return x
+
+
 def spice_future(nprs, F, H, lo_floor=None):
     """adds what the quantifier names: values outside the calibration range, values equal to sample points, ties"""
     F = F.copy()
@@ -171,6 +199,13 @@ def build_debiaser(kind, params, **extra):
         elif kind == "QMparam":
             dist = {"norm": scipy.stats.norm, "gamma": scipy.stats.gamma}[params["dist"]]
             deb = QuantileMapping(distribution=dist, mapping_type="parametric", detrending=params["detrending"], **extra)
+        elif kind == "QMpr" and params.get("construct") == "direct":
+            # the other construction path of the same configuration: the model object handed to the plain constructor
+            from ibicus.utils import gen_PrecipitationGammaLeftCensoredModel
+
+            dist = gen_PrecipitationGammaLeftCensoredModel(censoring_threshold=censoring_threshold(params),
+                                                           censor_in_ppf=bool(params.get("censor_in_ppf", True)))
+            deb = QuantileMapping(distribution=dist, mapping_type="parametric", detrending=params["detrending"], **extra)
         elif kind == "QMpr":
             deb = QuantileMapping.for_precipitation(model_type=params["model"], detrending=params["detrending"],
                                                     censoring_threshold=censoring_threshold(params), **extra)
@@ -209,6 +244,24 @@ def make_case(kind, params, seed):
         h = pr_flux(nprs, nH, dry, dz, unit, 0.8, 5.0)
         f = pr_flux(nprs, nF, dry * nprs.uniform(0.8, 1.2), dz, unit, 0.8, 5.0 * nprs.uniform(0.8, 1.5))
         params = {**params, "_unit": unit}
+    elif data == "prthr":
+        # quantifier "for all series including ties, zeros …" x "parametric branches": series whose values lie exactly ON the
+        # configured censoring threshold (ties there), one ulp under / above it, exact zeros, and ordinary amounts; obs wetter than
+        # cm_hist so that the lowest ranks (censored days) are mapped to distinct non-zero amounts
+        unit = float(nprs.choice([1.0, 1.0, 1 / 86400, 1e-2 / 86400]))
+        res_mm, kthr = THR_GRIDS[int(nprs.randint(len(THR_GRIDS)))]
+        style = str(nprs.choice(["gauge", "gauge", "floored"]))
+        thr = kthr * (res_mm * unit)
+        nO, nH, nF = (int(nprs.randint(120, 420)) for _ in range(3))
+        dry = float(nprs.uniform(0.2, 0.6))
+        o = pr_on_threshold(nprs, nO, float(nprs.uniform(0.0, 0.1)), 0.9, 5.0 * nprs.uniform(0.8, 1.6), res_mm, unit, kthr, style)
+        h = pr_on_threshold(nprs, nH, dry, 0.7, 3.0, res_mm, unit, kthr, style)
+        f = pr_on_threshold(nprs, nF, min(0.9, dry * nprs.uniform(0.8, 1.2)), 0.7, 3.0 * nprs.uniform(0.8, 1.5), res_mm, unit, kthr, style)
+        k = nprs.choice(nF, 12, replace=False)  # whatever the draw: some values ON the threshold and some exact zeros …
+        f[k[:4]], f[k[4:7]] = thr, 0.0
+        if nprs.random() < 0.5:  # … and the two neighbouring doubles of the threshold
+            f[k[7:9]], f[k[9:11]] = np.nextafter(thr, 0.0), np.nextafter(thr, np.inf)
+        params = {**params, "_thr_abs": float(thr), "_style": style}
     else:  # pr
         dry = params.get("dry", None)
         dry = float(nprs.uniform(0.05, 0.95)) if dry is None else dry
@@ -238,6 +291,8 @@ def describe(name, prob):
 
 def censoring_threshold(params):
     """the censored model's threshold in the data's units (0.35 mm/day for the flux data)"""
+    if "_thr_abs" in params:  # data built around the threshold (make_case, data "prthr"): the very float the data carries
+        return params["_thr_abs"]
     thr = params.get("censoring_threshold", 0.1)
     return thr * params["_unit"] if "_unit" in params else thr
 
@@ -262,6 +317,8 @@ def run_case(kind, params, seed):
     if kind == "QMpr" and params["model"] == "censored":
         # what the theorem states for every draw: pairs with x_j >= thr (sub-threshold inputs collapsed to one tie class) …
         thr = censoring_threshold(params)
+        info["at_thr"] = int((f == thr).sum())
+        info["under_thr"] = int((f < thr).sum())
         v = order_violation(np.where(f < thr, -1.0, f), out, sl)
         if v is None:  # … and the F16 pairs: two distinct sub-threshold inputs
             sub = np.where(f < thr)[0]
@@ -378,7 +435,7 @@ def run_isimip_case(var, overrides, stage, seed, dry=None, mode="normal"):
     overrides = dict(overrides)
     shift = float(overrides.pop("_shift", 0.0))  # data, bounds and thresholds in units shifted by a constant
     nO, nH, nF = (int(nprs.randint(120, 330)) for _ in range(3)) if mode == "bell" else (int(nprs.randint(25, 120)) for _ in range(3))
-    o, h, f = (isimip_data(var, nprs, n, role, dry, mode) for n, role in ((nO, "obs"), (nH, "hist"), (nF, "fut")))
+    o, h, f = (isimip_data(var, nprs, n, role, dry, "normal" if mode == "atthr" else mode) for n, role in ((nO, "obs"), (nH, "hist"), (nF, "fut")))
     if mode == "normal" and nprs.random() < 0.5:
         f = isimip_far_tail(var, nprs, f, h, shift)
     if mode != "allbounds" and nprs.random() < 0.5 and nF >= 8:  # ties among the future values
@@ -393,6 +450,18 @@ def run_isimip_case(var, overrides, stage, seed, dry=None, mode="normal"):
                 arr[np.isclose(arr, v - shift, rtol=0, atol=1e-13)] = v - shift
         overrides.update(lower_bound=lb - shift, lower_threshold=lt - shift, upper_threshold=ut - shift, upper_bound=ub - shift)
     deb = make_isimip(var, overrides)
+    if mode == "atthr":
+        # quantifier "for all series including ties … bounded ISIMIP variables": values exactly ON the debiaser's own lower / upper
+        # threshold (the boundary of "beyond the threshold"; ties there) and the neighbouring doubles on either side, in all three series
+        specials = []
+        for t, has in ((deb.lower_threshold, deb.has_lower_threshold), (deb.upper_threshold, deb.has_upper_threshold)):
+            if has:
+                t = float(t)
+                specials += [t, t, t, float(np.nextafter(t, -np.inf)), float(np.nextafter(t, np.inf))]
+        if specials:
+            for arr in (o, h, f):
+                idx = nprs.choice(arr.size, max(2, arr.size // 5), replace=False)
+                arr[idx] = nprs.choice(specials, idx.size)
     np.random.seed(seed % (2**31 - 1))
     yO, yH, yF = (np.repeat(np.arange(2000, 2000 + (n + 9) // 10), 10)[:n] for n in (nO, nH, nF))
     x = f.copy()
@@ -682,6 +751,32 @@ def isimip_cases(rng, tier, mult):
                 for stage in ("step6", "window"):
                     cases.append((var, ov, stage, rng.choice([None, 0.2, 0.5]), "allbounds"))
     return cases
+
+
+def boundary_cases(rng, tier, mult):
+    """Values exactly ON a configured threshold — the boundary of a case split of the transfer function (censoring threshold of the
+    left-censored gamma model: "under the threshold" is randomised, "not under" keeps its value; ISIMIP lower / upper threshold:
+    "beyond" includes equality).  Covers the quantifier "for all series including ties, zeros and values outside the calibration
+    range" x "parametric and non-parametric branches, bounded ISIMIP variables" at the one kind of value continuous generators
+    never produce.  Returns ([(kind, params)], [(var, overrides, stage, dry, mode)])."""
+    deb, isi = [], []
+    rep = (8 if tier == "quick" else 120) * mult
+    for _ in range(rep):
+        base = dict(model="censored", detrending="no_detrending", data="prthr", values="on_threshold")
+        deb.append(("QMpr", base))
+        deb.append(("QMpr", base))
+        deb.append(("QMpr", {**base, "construct": "direct", "censor_in_ppf": rng.random() < 0.5}))
+        # the same series through the models / debiasers for which the threshold value is an ordinary amount
+        deb.append(("QMpr", dict(model=rng.choice(["hurdle", "ignore_zeros"]), detrending="no_detrending", data="prthr", values="on_threshold")))
+        deb.append((rng.choice([("QMnonparam", dict(detrending="no_detrending", data="prthr", values="on_threshold")),
+                                ("LS", dict(delta="multiplicative", data="prthr", values="on_threshold"))])))
+    for _ in range((2 if tier == "quick" else 40) * mult):
+        for var, variants in (("pr", ({}, {"nonparametric_qm": True})), ("sfcwind", ({}, {"mode_non_parametric_qm": "normal"})),
+                              ("hurs", ({}, {"nonparametric_qm": False})), ("tasskew", ({}, {"nonparametric_qm": False}))):
+            for ov in variants:
+                for stage in ("step4", rng.choice(["step6", "window"])):
+                    isi.append((var, ov, stage, rng.choice([0.2, 0.5, None]) if var == "pr" else None, "atthr"))
+    return deb, isi
 
 
 # ------------------------------------------------------------------ structural probe of the censored model
@@ -999,6 +1094,34 @@ def run(tier, res, force_search=False):
             continue
         case = {"what": name, "kind": "ISIMIP", "var": var, "overrides": ov, "stage": stage, "dry": dry, "mode": mode, "np_seed": seed, **prob}
         problems.append((describe(name, prob), case, {"what": name}))
+    # values exactly on a configured threshold: own PRNG stream (the streams of the cases above stay what they were)
+    rng_b = random.Random(C.seed() * 15485863 + 909)
+    deb_b, isi_b = boundary_cases(rng_b, tier, mult)
+    for kind, params in deb_b:
+        seed = rng_b.randint(0, 2**31 - 2)
+        prob, info = run_case(kind, params, seed)
+        name = kind + ":" + ",".join(f"{k}={v}" for k, v in sorted(params.items()) if k not in ("data",))
+        hist["on_threshold/" + kind] = hist.get("on_threshold/" + kind, 0) + 1
+        res.count((name, info["ties"] > 0, info["zeros"] > 0, info.get("at_thr", 0) > 0, info.get("under_thr", 0) > 0, info["n"] // 100),
+                  info.get("at_thr", 1) > 0 and info["zeros"] > 0)
+        if prob is None:
+            continue
+        case = {"what": name, "kind": kind, "params": params, "np_seed": seed, **prob}
+        sig = {"what": name}
+        if kind == "QMpr" and params["model"] == "censored" and prob.get("f16"):
+            sig = dict(F16_SIGNATURE)
+            f16_hits += 1
+        problems.append((describe(name, prob), case, sig))
+    for var, ov, stage, dry, mode in isi_b:
+        seed = rng_b.randint(0, 2**31 - 2)
+        prob, info = run_isimip_case(var, ov, stage, seed, dry, mode)
+        name = f"ISIMIP/{var}/{stage}/on_threshold:" + ",".join(f"{k}={v}" for k, v in sorted(ov.items()))
+        hist["on_threshold/ISIMIP/" + stage] = hist.get("on_threshold/ISIMIP/" + stage, 0) + 1
+        res.count((name, info["ties"] > 0, info["at_lower"] > 0, info["at_upper"] > 0, info["n"] // 40), True)
+        if prob is None:
+            continue
+        case = {"what": name, "kind": "ISIMIP", "var": var, "overrides": ov, "stage": stage, "dry": dry, "mode": mode, "np_seed": seed, **prob}
+        problems.append((describe(name, prob), case, {"what": name}))
     res.extra["oracle_cases"] = hist
     res.extra["oracle_skipped"] = skipped
     res.extra["f16_windows_with_inverted_subthreshold_pair"] = f16_hits
@@ -1035,6 +1158,10 @@ def replay(data):
         prob, info = run_case(fi["kind"], fi["params"], fi["np_seed"])
     if prob is None:
         print("replay: the relation holds now", info)
+        return 0
+    if prob.get("f16") and not fi.get("f16"):
+        # the recorded pair had a not-censored member; what inverts now is only a pair of two distinct sub-threshold inputs (F16, known)
+        print("replay: the relation holds now for every pair with a not-censored member (only the known F16 sub-threshold pair inverts)", info)
         return 0
     print("replay: " + describe(fi.get("what", ""), prob))
     return 1
